@@ -77,11 +77,109 @@ let cmd_siftdown t =
   | None -> out_str "FUEL"
   | Some (a, b) -> out_list a; out_sep (); out_list b
 
+let next_mat t rows cols = List.init rows (fun _ -> next_list t cols)
+let out_mat m = List.iter (fun r -> out_list r; out_str ";") m
+let next_dm t n : nat -> nat -> z =
+  let a = Array.init n (fun _ -> Array.init n (fun _ -> next_z t)) in
+  (fun i j -> let i = int_of_nat i and j = int_of_nat j in
+    if i < n && j < n then a.(i).(j) else Z0)
+let next_graph t n k : graph =
+  let gi = next_mat t n k in let gd = next_mat t n k in let gf = next_mat t n k in
+  { g_ind = gi; g_dist = gd; g_flag = gf }
+let out_graph g = out_mat g.g_ind; out_sep (); out_mat g.g_dist; out_sep (); out_mat g.g_flag
+
+(* rng nsteps s0 s1 s2 : per step "int key" then final state *)
+let cmd_rng t =
+  let n = next_int t in
+  let s = ref (next_list t 3) in
+  for _ = 1 to n do
+    let (i, s') = tau_rand_int !s in
+    s := s'; out_z i; out_z (tau_rand_key_of_int i)
+  done;
+  out_sep (); out_list !s
+
+(* nbc n k maxc T inf rng[3] ind[n*k] flag[n*k] *)
+let cmd_nbc t =
+  let n = next_int t in let k = next_int t in let maxc = next_int t in let th = next_int t in
+  let inf = next_z t in
+  let rng = next_list t 3 in
+  let gi = next_mat t n k in let gf = next_mat t n k in
+  let g = { g_ind = gi; g_dist = List.map (fun r -> List.map (fun _ -> inf) r) gi; g_flag = gf } in
+  let ((g', nc), oc) = new_build_candidates inf g (nat_of_int maxc) rng (nat_of_int th) in
+  out_mat g'.g_flag; out_sep (); out_mat nc; out_sep (); out_mat oc
+
+let next_updates t =
+  let nl = next_int t in
+  List.init nl (fun _ -> let m = next_int t in
+    List.init m (fun _ -> let p = next_z t in let q = next_z t in let d = next_z t in ((p, q), d)))
+
+(* applylow n k T graph updates *)
+let cmd_applylow t =
+  let n = next_int t in let k = next_int t in let th = next_int t in
+  let g = next_graph t n k in
+  let ups = next_updates t in
+  let (g', c) = apply_graph_updates_low_memory g ups (nat_of_int th) in
+  out_z c; out_sep (); out_graph g'
+
+(* applyhigh n k secondq graph updates ; in_graph initialised from the index rows *)
+let cmd_applyhigh t =
+  let n = next_int t in let k = next_int t in let sq = next_bool t in
+  let g = next_graph t n k in
+  let ups = next_updates t in
+  let ((g', _), c) = apply_graph_updates_high_memory sq g ups g.g_ind in
+  out_z c; out_sep (); out_graph g'
+
+(* ggu n maxc thr[n] new[n*maxc] old[n*maxc] dm[n*n] inf *)
+let out_updates ups =
+  List.iter (fun ul -> List.iter (fun ((p, q), d) -> out_z p; out_z q; out_z d; out_str ",") ul; out_str ";") ups
+let cmd_ggu t =
+  let n = next_int t in let maxc = next_int t in let inf = next_z t in
+  let thr = next_list t n in
+  let nc = next_mat t n maxc in let oc = next_mat t n maxc in
+  let dm = next_dm t n in
+  out_updates (generate_graph_updates inf dm thr nc oc)
+
+(* nnd n k maxc iters thr_c T low secondq inf rng[3] has_init [graph] has_leaves [nl w leaves] dm[n*n] *)
+let cmd_nnd t =
+  let n = next_int t in let k = next_int t in let maxc = next_int t in let iters = next_int t in
+  let thr_c = next_z t in let th = next_int t in let low = next_bool t in let sq = next_bool t in
+  let inf = next_z t in
+  let rng = next_list t 3 in
+  let init = if next_bool t then Some (next_graph t n k) else None in
+  let leaves = if next_bool t then (let nl = next_int t in let w = next_int t in Some (next_mat t nl w)) else None in
+  let dm = next_dm t n in
+  let (res, rng') = nn_descent inf dm sq (nat_of_int n) (nat_of_int k) rng (nat_of_int maxc) (nat_of_int iters)
+      thr_c init leaves low (nat_of_int th) in
+  (match res with
+   | None -> out_str "FUEL"
+   | Some (i, d) -> out_mat i; out_sep (); out_mat d);
+  out_sep (); out_list rng'
+
+(* initheap mode n k cols inf inds[n*cols] [dists[n*cols]] dm[n*n]
+   mode 0: init_heap_from_indices, 1: ..._and_distances, 2: init_from_neighbor_graph *)
+let cmd_initheap t =
+  let mode = next_int t in
+  let n = next_int t in let k = next_int t in let cols = next_int t in let inf = next_z t in
+  let inds = next_mat t n cols in
+  let g0 = make_heap inf (nat_of_int n) (nat_of_int k) in
+  let g = (match mode with
+      | 0 -> let dm = next_dm t n in init_heap_from_indices dm g0 inds
+      | 1 -> let ds = next_mat t n cols in init_heap_from_indices_and_distances g0 inds ds
+      | _ -> let ds = next_mat t n cols in init_from_neighbor_graph g0 inds ds) in
+  out_graph g
+
 (*DISPATCH-BEGIN*)
 let dispatch : (string * (toks -> unit)) list = [
   ("heapseq", cmd_heapseq);
   ("deheap", cmd_deheap);
   ("siftdown", cmd_siftdown);
+  ("rng", cmd_rng);
+  ("nbc", cmd_nbc);
+  ("applylow", cmd_applylow);
+  ("applyhigh", cmd_applyhigh);
+  ("ggu", cmd_ggu);
+  ("nnd", cmd_nnd);
+  ("initheap", cmd_initheap);
 ]
 (*DISPATCH-END*)
 
